@@ -33,6 +33,13 @@ static void summary(const Reg& g, Out& o) { if (g.u) summary(*g.u, o); else summ
 template<typename Sk> static void entries(const Sk& s, Out& o) {
   std::vector<uint64_t> v;
   for (auto it = s.begin(); it != s.end(); ++it) v.push_back(*it);
+  // every way of walking the sketch must expose the same entries: post-increment, *it++, range-for
+  { std::vector<uint64_t> w1, w2, w3;
+    for (auto it = s.begin(); it != s.end(); it++) w1.push_back(*it);
+    for (auto it = s.begin(); it != s.end(); ) w2.push_back(*it++);
+    for (const auto& e : s) w3.push_back(e);
+    // on disagreement report the deviating walk: the oracle then judges it like any other exposed entry set
+    if (w1 != v) v = w1; else if (w2 != v) v = w2; else if (w3 != v) v = w3; }
   for (uint64_t x : v) o.F((I)x);             // iteration order: only the oracle reads it
   std::sort(v.begin(), v.end());
   for (uint64_t x : v) o.R((I)x);             // sorted: slot order is structure, not behaviour
